@@ -370,7 +370,11 @@ func c11Worker(args []string) int {
 		}
 		mu.Unlock()
 		debug.SetGCPercent(100)
-		if hi%16 == 15 {
+		// GC stays off *inside* a history (pooled objects must survive); between histories the heap is
+		// bounded: collect every 16 histories or as soon as the live heap passes 768 MiB
+		var ms runtime.MemStats
+		runtime.ReadMemStats(&ms)
+		if hi%16 == 15 || ms.HeapAlloc > 768<<20 {
 			runtime.GC()
 		}
 	}
@@ -483,6 +487,11 @@ func runC11(c *ev.Ctx) {
 				}
 			}
 			err := cmd.Wait()
+			if err != nil && strings.Contains(err.Error(), "signal: killed") {
+				// killed from outside (out-of-memory killer): the run cannot conclude, which is not a verdict
+				c.Fatal("history child %d was killed (out of memory?): %s", s, trimTail(stderr.String(), 500))
+				return
+			}
 			if err != nil || !gotStat {
 				c.Violate(ev.Case{Idx: s, Desc: fmt.Sprintf("history child %d", s)}, "child-died", nil, fmt.Sprintf("%v; stderr tail: %s", err, trimTail(stderr.String(), 2000)), nil)
 			}
